@@ -19,7 +19,7 @@ OPS = {"quick": (40, 90), "thorough": (60, 200)}
 FLOORS = {
     "quick": {"distinct_nontrivial": 300, "output_events_compared": 800, "twins_built": 2000,
               "K3_evaluations": 3000, "events_after_other_data": 400, "events_on_sharing_objects": 80,
-              "update_events": 60, "set_params_events": 40, "clone_events": 40},
+              "update_events": 25, "set_params_events": 15, "clone_events": 15},
     "thorough": {"distinct_nontrivial": 6000, "output_events_compared": 15000},
 }
 ANCHORS = [
@@ -37,8 +37,8 @@ ANCHORS = [
 LEVEL = "exploration"
 RULE = (
     "random sequential call histories over a pool of 6-12 objects (7 detector classes from the zoo "
-    "incl. user-defined scorers, built-in scorers) and 4-6 datasets of different n and p (RangeIndex "
-    "and DatetimeIndex frames): construct / set_params (flat and nested) / clone / fit / update / "
+    "incl. user-defined scorers, built-in scorers) and 4-9 datasets (groups sharing shape and index "
+    "but not values, different n and p between groups; RangeIndex and DatetimeIndex frames): construct / set_params (flat and nested) / clone / fit / update / "
     "predict / transform / transform_scores / scores table / scorer fit / evaluate, with scorer "
     "instances shared between detectors and pre-fitted scorers passed to constructors. Twin-object "
     "monitor: for every output event three twins are built from the object's configuration recipe "
@@ -140,13 +140,17 @@ def history(ctx, seed):
     tier = ctx.tier
     sub = "twin-monitor"
     # ---- datasets -------------------------------------------------------------------------------
+    # groups of datasets that share shape AND index but hold different values (a result cached by
+    # shape or index instead of by content shows only there), plus datasets of other n and p
     datasets = []
-    for i in range(int(rng.integers(4, 7))):
+    for g in range(int(rng.integers(2, 4))):
         p = int(rng.choice([1, 1, 2, 3]))
         n = int(rng.integers(16, 45))
-        X, _ = gen_data(rng, n, p, ["mean_changes", "collective", "spikes", "noise", "small_alphabet"][
-            int(rng.integers(5))])
-        datasets.append(_frame(X, "datetime" if rng.random() < 0.3 else "range0"))
+        ik = "datetime" if rng.random() < 0.3 else "range0"
+        for i in range(int(rng.integers(2, 4))):
+            X, _ = gen_data(rng, n, p, ["mean_changes", "collective", "spikes", "noise", "small_alphabet"][
+                int(rng.integers(5))])
+            datasets.append(_frame(X, ik))
     # ---- pool -----------------------------------------------------------------------------------
     pool = []
     shared_cost = build(S("L2Cost", param=None))
